@@ -677,7 +677,7 @@ func evaluateHistory(res *histResult, evs []sEv, u *universe, linear bool, done 
 			}
 		}
 		if e.Kind == "ctok" {
-			// observation only: a token handed out although a later generation had completely replaced the one it was signed with
+			// a token handed out although a later generation had completely replaced the one it was signed with
 			for _, r := range reloads {
 				t, ok := r.Ret, true
 				if done != nil {
@@ -685,6 +685,12 @@ func evaluateHistory(res *histResult, evs []sEv, u *universe, linear bool, done 
 				}
 				if ok && t > 0 && r.Gen > e.Gen && t < e.Call {
 					res.StaleC++
+					// every generation has its own key: once a later generation has completely replaced it, the token no
+					// longer verifies against the published key set (repaired by daebf48: the token cache key covers the key)
+					if len(res.Problems) < 20 {
+						res.Problems = append(res.Problems, problem{Sig: "cached-token-of-replaced-generation",
+							Text: fmt.Sprintf("a token signed by generation %d was handed out from the cache by an operation that started after generation %d had completely replaced it", e.Gen, r.Gen)})
+					}
 					break
 				}
 			}
